@@ -38,6 +38,9 @@ class BaseGotranODECodePrinter(StrPrinter):
             "==": "Eq",
             "!=": "Ne",
         }
+        if expr.rel_op == "!=":
+            # The grammar has no Ne: write it the way it can be read back
+            return f"Not(Eq({lhs}, {rhs}))"
         relop = relop2str[expr.rel_op]
         return f"{relop}({lhs}, {rhs})"
 
